@@ -1,4 +1,6 @@
 import RnaVerif.Lemmas.AllDBStrings
+import RnaVerif.Lemmas.MkDB
+import RnaVerif.Lemmas.Pushdown
 /-!
 # C16 — the all-dot-brackets list is exactly the set of greedy-stable (Grundy) assignments
 
@@ -188,6 +190,38 @@ theorem allDB_one_to_one_of_WF (es : List Entry) (L : List (List Char))
       (allLevels Gen.conflictAll (regions es)) L :=
   allDB_no_collapse_of_WF es L hpos hwf hne h
 
+theorem grundy_proper {adj : Nat → Nat → Bool} {lv : List Nat} (h : grundy adj lv = true) :
+    proper adj lv = true := by
+  unfold grundy at h
+  exact (Bool.and_eq_true _ _ ▸ h).1
+
+/-- **C16, no repetition at the level of colourings**: for a *valid* BPSEQ with crossing stems the
+returned strings correspond one-to-one, in order, to the Grundy colourings (uses the C01 lemmas
+`stemFacts_regions`, `wf_triples` of `Lemmas/Regions.lean`, `Lemmas/MkDB.lean`); in particular the
+list has as many entries as there are Grundy colourings -/
+theorem allDB_one_to_one_valid (es : List Entry) (L : List (List Char)) (hv : valid es = true)
+    (hne : ¬ (List.range (regions es).length).all (fun v =>
+      degree (adjOf Gen.conflictAll (regions es)) (regions es).length v == 0) = true)
+    (h : allDB es = .ok L) :
+    All2 (fun lv s => mkDB es.length (regions es) lv = .ok s)
+      (allLevels Gen.conflictAll (regions es)) L ∧
+    L.length = (allLevels Gen.conflictAll (regions es)).length := by
+  have v := (SecStr.valid_iff es).mp hv
+  have hfun : Gen.conflictAll = conflictSpec := by
+    funext k l m n; exact conflictAll_is_crossing k l m n
+  have hA : All2 (fun lv s => mkDB es.length (regions es) lv = .ok s)
+      (allLevels Gen.conflictAll (regions es)) L := by
+    apply allDB_one_to_one_of_WF es L ?_ ?_ hne h
+    · intro r hr; exact (stemFacts_regions v hr).len_pos
+    · intro lv _ hg
+      apply wf_triples v lv
+      apply properP_of_proper
+      rw [← hfun]
+      exact grundy_proper hg
+  exact ⟨hA, hA.length_eq.symm⟩
+
+example : valid exEs = true := by decide
+
 example : ¬ (List.range (regions exEs).length).all (fun v =>
     degree (adjOf Gen.conflictAll (regions exEs)) (regions exEs).length v == 0) = true := by decide
 
@@ -262,6 +296,21 @@ theorem grundy_string_mem_allDB (es : List Entry) (L : List (List Char)) (lv : L
 example : grundy exAdj [1, 0, 1] = true ∧
     mkDB exEs.length (regions exEs) [1, 0, 1] = .ok ['[', '(', '.', '.', ']', '[', ')', ']'] :=
   ⟨by decide, ok_of_toOption (by decide)⟩
+
+/-- **the list always contains an optimal notation**: every proper level vector is dominated
+(pointwise, and in the objective of `convert_to_dot_bracket`) by an enumerated one — uses the C02
+push-down lemma `Poa.pushdown` of `Lemmas/Pushdown.lean`; so the maximum of the objective over all
+proper assignments is attained inside the list -/
+theorem optimal_mem_allLevels (c : ConfPred) (regs : List Region) (a : List Nat)
+    (hl : a.length = regs.length) (hp : proper (adjOf c regs) a = true) :
+    ∃ lv ∈ allLevels c regs, (∀ v, lv.getD v 0 ≤ a.getD v 0) ∧
+      score (regs.map (·.len)) a ≤ score (regs.map (·.len)) lv := by
+  obtain ⟨a', h1, h2, _, _, h5, h6⟩ := Poa.pushdown (adjOf c regs)
+    ⟨adjOf_symm c regs, adjOf_irrefl c regs⟩ (regs.map (·.len)) a (by simp [hl]) hp
+  exact ⟨a', (allLevels_exact c regs a').mpr ⟨h1.trans hl, h2⟩, h5, h6⟩
+
+example : proper exAdj [2, 0, 5] = true ∧ ([2, 0, 5] : List Nat).length = (regions exEs).length :=
+  ⟨by decide, by decide⟩
 
 /-- a Grundy colouring uses only levels up to the degree, hence up to the maximum degree -/
 theorem grundy_le_degree (adj : Nat → Nat → Bool) (lv : List Nat) (h : grundy adj lv = true)
